@@ -176,37 +176,70 @@ func c18Offset(c *core.Ctx, r *core.Reporter) {
 	if nroots == 0 {
 		r.OK("lexer/no-rune-counters", runeAt.Pos(), "no integer is incremented by 1 alongside a byte-width advance: only byte offsets exist")
 	}
-	// sinks
-	per := map[string]int{}
+	// sinks. A sink inside a helper extracted from a pinned function is counted with that function (after the function's
+	// own sinks), so that moving code into a helper does not turn recorded findings into new ones.
+	type sinkSite struct {
+		host  string
+		own   bool
+		ci    ssa.CallInstruction
+		idxs  []int
+		what  string
+		where string
+	}
+	var all []sinkSite
 	for _, fn := range fns {
-		sites := core.CallSites(fn)
-		sort.SliceStable(sites, func(i, j int) bool { return sites[i].Pos() < sites[j].Pos() })
-		for _, ci := range sites {
-			cal := ci.Common().StaticCallee()
-			var idxs []int
-			var what string
-			switch cal {
-			case synErr:
-				idxs, what = []int{1}, "NewSyntaxError.position"
-			case makeTok:
-				idxs, what = []int{1, 2}, "makeToken.start/end"
-			default:
-				continue
-			}
-			name := fnKey(fn)
-			per[name+"/"+what]++
-			key := fmt.Sprintf("%s/%s#%d", name, what, per[name+"/"+what])
-			bad := false
-			for _, i := range idxs {
-				if tainted[ci.Common().Args[i]] {
-					bad = true
+		host, own := fnKey(fn), true
+		if c.IsFresh(fn) {
+			callers := map[string]bool{}
+			for _, g := range fns {
+				if g == fn || c.IsFresh(g) {
+					continue
+				}
+				for _, rg := range c.Region(g) {
+					if rg == fn {
+						callers[fnKey(g)] = true
+					}
 				}
 			}
-			if bad {
-				r.Bad(key, ci.Pos(), "%s passes a rune count (an integer advanced by 1 per character while the byte offset advances by the character's width) to %s, which is interpreted as a byte offset: after a multi-byte character the reported line/column and the token bounds are wrong", name, what)
-			} else {
-				r.OK(key, ci.Pos(), "byte-domain argument")
+			if len(callers) == 1 {
+				for k := range callers {
+					host, own = k, false
+				}
 			}
+		}
+		for _, ci := range core.CallSites(fn) {
+			cal := ci.Common().StaticCallee()
+			switch cal {
+			case synErr:
+				all = append(all, sinkSite{host, own, ci, []int{1}, "NewSyntaxError.position", fnKey(fn)})
+			case makeTok:
+				all = append(all, sinkSite{host, own, ci, []int{1, 2}, "makeToken.start/end", fnKey(fn)})
+			}
+		}
+	}
+	sort.SliceStable(all, func(i, j int) bool {
+		if all[i].host != all[j].host {
+			return all[i].host < all[j].host
+		}
+		if all[i].own != all[j].own {
+			return all[i].own
+		}
+		return all[i].ci.Pos() < all[j].ci.Pos()
+	})
+	per := map[string]int{}
+	for _, sk := range all {
+		per[sk.host+"/"+sk.what]++
+		key := fmt.Sprintf("%s/%s#%d", sk.host, sk.what, per[sk.host+"/"+sk.what])
+		bad := false
+		for _, i := range sk.idxs {
+			if tainted[sk.ci.Common().Args[i]] {
+				bad = true
+			}
+		}
+		if bad {
+			r.Bad(key, sk.ci.Pos(), "%s passes a rune count (an integer advanced by 1 per character while the byte offset advances by the character's width) to %s, which is interpreted as a byte offset: after a multi-byte character the reported line/column and the token bounds are wrong", sk.where, sk.what)
+		} else {
+			r.OK(key, sk.ci.Pos(), "byte-domain argument")
 		}
 	}
 }
